@@ -35,7 +35,7 @@ m = {
     "setup_cmd": "cd /verif && ./tools/setup.sh",
     "hooks": {
         "guard": "CHMPY_VERIF",
-        "enable": "checks import /repo/src directly (editable install) with CHMPY_VERIF=1 in the environment; no in-source hook is needed so far: events are recorded at the return of public calls by wrappers in /verif/harness",
+        "enable": "checks import /repo/src directly (editable install; nothing to build) with CHMPY_VERIF=1 in the environment (set by harness/common.py) and install a tracer through chmpy.util._verif.install(); two add-only hook sites emit one event per iteration of reduced_symmetry_list and per BFS tree edge of unit_cell_molecules; all other events are recorded at the return of public calls by wrappers in /verif/harness",
         "baseline_off_cmd": "cd /repo && env -u CHMPY_VERIF /venv/bin/python -m pytest -ra -q -p no:cacheprovider --timeout=900 --continue-on-collection-errors",
         "source_commits": HOOK_COMMITS,
         "add_only": True,
